@@ -367,7 +367,12 @@ func (rr *DefaultRelationsResolver) parseRequire(states S) S {
 
 	if len(missingMap) > 0 {
 		names := S{}
-		for state, notFound := range missingMap {
+		// in the order of state names, not of the map
+		for _, state := range rr.Machine.stateNames {
+			notFound, ok := missingMap[state]
+			if !ok {
+				continue
+			}
 			names = append(names, state+"(-"+jw(notFound, " -")+")")
 		}
 		if t.IsAuto() {
